@@ -57,13 +57,13 @@ theorem nodup_foldl_addUniq (f : Row → Str) (rows : List Row) (init : List Str
   | cons r rows ih => exact ih _ (nodup_addUniq init (f r) h)
 
 theorem mem_eventsOf (t : List Row) (s e : Str) :
-    e ∈ eventsOf t s ↔ ∃ r ∈ t, r.src = s ∧ r.ev = e := by
+    e ∈ eventsOf t s ↔ ∃ r ∈ t, r.noEv = false ∧ r.src = s ∧ r.ev = e := by
   unfold eventsOf
   rw [mem_foldl_addUniq (fun r => r.ev)]
-  simp only [List.not_mem_nil, false_or, List.mem_filter, beq_iff_eq]
+  simp only [List.not_mem_nil, false_or, List.mem_filter, beq_iff_eq, Bool.and_eq_true, Bool.not_eq_true']
   constructor
-  · rintro ⟨r, ⟨hr, hs⟩, he⟩; exact ⟨r, hr, hs, he⟩
-  · rintro ⟨r, hr, hs, he⟩; exact ⟨r, ⟨hr, hs⟩, he⟩
+  · rintro ⟨r, ⟨hr, hn, hs⟩, he⟩; exact ⟨r, hr, hn, hs, he⟩
+  · rintro ⟨r, hr, hn, hs, he⟩; exact ⟨r, ⟨hr, hn, hs⟩, he⟩
 
 theorem nodup_eventsOf (t : List Row) (s : Str) : (eventsOf t s).Nodup :=
   nodup_foldl_addUniq (fun r => r.ev) _ [] (by simp)
@@ -72,9 +72,9 @@ theorem rowsFor_nil_of_not_mem (t : List Row) (s e : Str) (h : e ∉ eventsOf t 
   unfold rowsFor
   rw [List.filter_eq_nil_iff]
   intro r hr
-  simp only [Bool.and_eq_true, beq_iff_eq, not_and]
-  intro hs he
-  exact h ((mem_eventsOf t s e).2 ⟨r, hr, hs, he⟩)
+  simp only [Bool.and_eq_true, beq_iff_eq, not_and, Bool.not_eq_true']
+  intro hn he
+  exact h ((mem_eventsOf t s e).2 ⟨r, hr, hn.1, hn.2, he⟩)
 
 theorem mem_sourceStates (t : List Row) (s : Str) : s ∈ sourceStates t ↔ ∃ r ∈ t, r.src = s := by
   unfold sourceStates
